@@ -17,7 +17,9 @@ RULE = ("seeded automata / PDAs / FSTs over a JSON-representable value pool (int
         "oracle: structural equality of the re-imported machine, bounded language equality for the text round "
         "trip, exact reference language per non-terminal for the boxes; non-trivial = machine has >=2 "
         "transitions / grammar >=2 productions / EBNF >=2 lines; distinct = descriptor digest")
-ASSUMPTIONS = ["values are JSON-representable, are not epsilon spellings and do not contain ' -> ' or ' / '",
+ASSUMPTIONS = ["every state is a start state, a final state or an end point of a transition (an isolated unmarked "
+               "state has no representation the importers could read back, and no effect on the language)",
+               "values are JSON-representable, are not epsilon spellings and do not contain ' -> ' or ' / '",
                "grammar tokens are whitespace-free and contain no quote, '|' or '->'"]
 
 STATE_POOLS = [
@@ -219,7 +221,7 @@ def _run_pda(case, out):
     from gens.pda import extract
     st, sy, sk = case["states"], case["syms"], case["stack"]
     pda = PDA(start_state=st[case["start"]], start_stack_symbol=sk[case["z0"]],
-              final_states={st[i] for i in case["finals"]}, states=set(st))
+              final_states={st[i] for i in case["finals"]})
     for p, a, x, q, g in case["trans"]:
         pda.add_transition(st[p], "epsilon" if a is None else sy[a], sk[x], st[q], [sk[i] for i in g])
 
